@@ -132,6 +132,21 @@ func c07Exec(op string) string {
 				note = "FIRSTVALUE ValueForPath returned " + clip(enc(v), 120) + ", which is not the first value of ValuesForPath " + clip(enc(vs), 200)
 			}
 		}
+		// the string forms: the first value printed with %v, or an error / the empty string
+		if note == "" {
+			sv, serr := mxj.Map(m).ValueForPathString(path)
+			se := mxj.Map(m).ValueOrEmptyForPathString(path)
+			switch {
+			case (serr == nil) != (err == nil):
+				note = fmt.Sprintf("FIRSTVALUE ValueForPathString error=%v but ValueForPath error=%v", serr, err)
+			case err == nil && !hasWildSeg(path) && sv != fmt.Sprintf("%v", v):
+				note = "FIRSTVALUE ValueForPathString returned " + clip(sv, 80) + " for the first value " + clip(fmt.Sprintf("%v", v), 80)
+			case se != sv && !hasWildSeg(path):
+				note = "FIRSTVALUE ValueOrEmptyForPathString differs from ValueForPathString"
+			case err != nil && se != "":
+				note = "FIRSTVALUE ValueOrEmptyForPathString is not empty for a path without values"
+			}
+		}
 		if err != nil {
 			return "err " + errKindOf(err) + " | " + note
 		}
@@ -435,6 +450,9 @@ func genSubkeys(r *Rng, m map[string]interface{}, sep string) []string {
 				switch s := x[k].(type) {
 				case string:
 					cands = append(cands, [2]string{k, s})
+					if !strings.Contains(s, sep) {
+						cands = append(cands, [2]string{k, s + sep + r.Pick([]string{"string", "char", "text"})})
+					}
 				case float64:
 					cands = append(cands, [2]string{k, fmt.Sprintf("%v", s) + sep + "num"})
 					// a condition on a number that is NOT the member but very close to it
